@@ -345,7 +345,7 @@ Proof.
   destruct (q_pol q) eqn:P.
   - dmatch H; inversion H; subst; repeat split; auto; discriminate.
   - destruct (q_complete q); [discriminate|].
-    destruct (zlen (q_ordering q) =? 0); [discriminate|].
+    destruct (zlen (q_ordering q) =? 0); [destruct (r_empty_guard R); discriminate|].
     destruct keep.
     + dmatch H; inversion H; subst; cbn; repeat split; auto; discriminate.
     + destruct (inter_skip _ _ _ _) as [[i' k]|] eqn:S; [|discriminate].
@@ -355,13 +355,25 @@ Proof.
   - dmatch H; inversion H; subst; cbn; repeat split; auto; discriminate.
 Qed.
 
+Lemma zlen0_nil {A} (l : list A) : (zlen l =? 0) = true -> l = [].
+Proof. unfold zlen. destruct l; cbn [length]; [reflexivity|lia]. Qed.
+
 Lemma next_key_empty R q : next_key R q = NEmpty ->
   match q_pol q with
   | PFifo | PRandom | PGrouped _ => q_ordering q = []
-  | PInter _ | PBlockedRandom => q_complete q = true
+  | PInter _ | PBlockedRandom => q_complete q = true \/ q_ordering q = []
   end.
 Proof.
-  unfold next_key. intros H. destruct (q_pol q); dmatch H; try discriminate; auto.
+  unfold next_key. intros H. destruct (q_pol q).
+  - dmatch H; try discriminate; auto.
+  - destruct (q_complete q); [auto|]. destruct (zlen (q_ordering q) =? 0) eqn:Z0.
+    + right. apply zlen0_nil. exact Z0.
+    + dmatch H; discriminate.
+  - dmatch H; try discriminate; auto.
+  - destruct (q_complete q); [auto|]. destruct (zlen (q_ordering q) =? 0) eqn:Z0.
+    + right. apply zlen0_nil. exact Z0.
+    + rewrite andb_false_r in H. dmatch H; discriminate.
+  - dmatch H; try discriminate; auto.
 Qed.
 
 Definition dec_ordering (q : qstate) (key : Z) (d : list entry) : list Z :=
